@@ -44,6 +44,14 @@ def make_hist(init):
     return Histogram(edges)
 
 
+def _integral(l):
+    return all(isinstance(x, (int, float)) and x == x and abs(x) < 2**53 and x == int(x) for x in l)
+
+
+def _np_dtype(o, l):
+    return int if o.get("np") == "int" and _integral(l) else float
+
+
 def apply_op(h, o):
     k = o["op"]
     if k == "fill":
@@ -52,16 +60,23 @@ def apply_op(h, o):
         if w is not None:
             w = nums(w) if isinstance(w, list) else num(w)
         if o.get("np"):
+            # "int": integer ndarrays where every entry is integral; "scalar": numpy scalars instead of Python numbers
             if isinstance(v, list):
-                v = np.array(v, dtype=float)
+                v = np.array(v, dtype=_np_dtype(o, v))
+            elif o["np"] == "scalar":
+                v = np.int64(v) if _integral([v]) and isinstance(v, int) else np.float64(v)
             if isinstance(w, list):
-                w = np.array(w, dtype=float)
+                w = np.array(w, dtype=_np_dtype(o, w))
+            elif o["np"] == "scalar" and w is not None:
+                w = np.int32(w) if _integral([w]) and isinstance(w, int) else np.float32(w) if float(np.float32(w)) == w else np.float64(w)
         h.add_value(v) if w is None else h.add_value(v, weight=w)
     elif k == "add_hist":
         h.add_histogram()
     elif k == "scale":
         s = o["s"]
-        s = (np.array(nums(s), dtype=float) if o.get("np") else nums(s)) if isinstance(s, list) else num(s)
+        s = (np.array(nums(s), dtype=_np_dtype(o, nums(s))) if o.get("np") else nums(s)) if isinstance(s, list) else num(s)
+        if o.get("np") == "scalar" and not isinstance(s, np.ndarray):
+            s = np.int64(s) if isinstance(s, int) else np.float64(s)
         h.scale_histogram(s)
     elif k in ("set_err", "set_sys"):
         # how the caller hands the list over: plain floats, Python ints (integral values only), or a numpy array that the caller
@@ -88,7 +103,7 @@ def apply_op(h, o):
     elif k == "average":
         h.average()
     elif k == "avg_w":
-        h.average_weighted(np.array(nums(o["ws"]), dtype=float) if o.get("np") else nums(o["ws"]))
+        h.average_weighted(np.array(nums(o["ws"]), dtype=_np_dtype(o, nums(o["ws"]))) if o.get("np") else nums(o["ws"]))
     elif k == "avg_err":
         h.average_weighted_by_error()
     else:
@@ -127,16 +142,16 @@ def exc_name(e):
     return EXC.get(type(e).__name__, "Other:" + type(e).__name__)
 
 
-def early_write(h, wr, labels, workdir, tag="early"):
-    """an additional write_to_file in the middle of a history, with the same one-dict label list object (and column list)
-    that the final write uses; returns the exception name or None.  Only used when the labels are valid for any number of
-    histograms (one dict holding every requested column, all columns known)."""
+def early_write(h, wr, labels, workdir, tag="early", cols=None):
+    """an additional write_to_file in the middle of a history, with the same one-dict label list object (and, `cols`, the same
+    column list object) that the final write uses; returns the exception name or None.  Only used when the labels are valid for
+    any number of histograms (one dict holding every requested column, all columns known)."""
     path = os.path.join(workdir or "/tmp", f"hist_{tag}_{os.getpid()}.csv")
     try:
         if wr.get("columns") is None:
             h.write_to_file(path, labels)
         else:
-            h.write_to_file(path, labels, columns=list(wr["columns"]))
+            h.write_to_file(path, labels, columns=list(wr["columns"]) if cols is None else cols)
         return None
     except Exception as e:
         return exc_name(e)
@@ -176,6 +191,7 @@ def run_impl(case, workdir=None):
         out["init"] = snap(h)
         wr0 = case.get("write")
         shared_labels = json.loads(json.dumps(wr0["labels"])) if wr0 is not None else None    # ONE object for every write
+        shared_cols = list(wr0["columns"]) if wr0 is not None and wr0.get("columns") is not None else None   # likewise
         for step, o in enumerate(case["ops"]):
             try:
                 apply_op(h, o)
@@ -184,7 +200,7 @@ def run_impl(case, workdir=None):
                     # the caller looks at the geometry after this operation (pure accessors): after every one, or after the listed steps
                     h.bin_centers(), h.bin_width(), h.bin_bounds_left(), h.bin_bounds_right()
                 if early_write_applies(wr0) and wr0["early_at"] == step:
-                    out["early_write_exc"] = early_write(h, wr0, shared_labels, workdir)
+                    out["early_write_exc"] = early_write(h, wr0, shared_labels, workdir, cols=shared_cols)
             except Exception as e:
                 out["exc"] = exc_name(e)
                 out["trace"].append({"exc": out["exc"]})
@@ -206,7 +222,7 @@ def run_impl(case, workdir=None):
                 if wr.get("columns") is None:
                     h.write_to_file(path, shared_labels)
                 else:
-                    h.write_to_file(path, shared_labels, columns=list(wr["columns"]))
+                    h.write_to_file(path, shared_labels, columns=shared_cols)
                 out["write"] = {"tables": parse_csv(path, out["final"]["nbins"])}
             except Exception as e:
                 out["write"] = {"exc": exc_name(e)}
@@ -529,6 +545,14 @@ def gen_fill(rng, edges, nan_ok=True):
             o["w"] = rng.choice([2.0, [1.0] * (k + 1), [0.5] * max(0, k - 1)])
         if rng.random() < 0.3:
             o["np"] = True
+            if rng.random() < 0.3:
+                o["np"] = "int"                      # integer ndarrays (values / weights that are integral)
+                if rng.random() < 0.5:
+                    o["v"] = [float(round(x)) for x in o["v"]]
+                    if isinstance(o.get("w"), list):
+                        o["w"] = [float(round(x)) if not isnan(x) else x for x in o["w"]]
+    if not isinstance(o["v"], list) and rng.random() < 0.15:
+        o["np"] = "scalar"                           # numpy scalars (np.float64 / np.int64 value, np.float32 / np.int32 weight)
     if nan_ok and rng.random() < 0.06:
         if isinstance(o["v"], list) and o["v"]:
             o["v"][rng.randrange(len(o["v"]))] = "nan"
@@ -540,11 +564,19 @@ def gen_fill(rng, edges, nan_ok=True):
 def gen_scale(rng, nbins):
     r = rng.random()
     if r < 0.5:
-        return {"op": "scale", "s": rng.choice([2.0, 0.5, 0.25, 3, 1.5, 0.0, 4.0, 1.0, 0.75])}
+        o = {"op": "scale", "s": rng.choice([2.0, 0.5, 0.25, 3, 1.5, 0.0, 4.0, 1.0, 0.75])}
+        if rng.random() < 0.15:
+            o["np"] = "scalar"
+        return o
     if r < 0.85:
         o = {"op": "scale", "s": [rng.choice([2.0, 0.5, 1.0, 4.0, 0.25, 1.5, 0.0]) for _ in range(nbins)]}
         if rng.random() < 0.4:
             o["np"] = True
+            if rng.random() < 0.3:
+                o["np"] = "int"
+                o["s"] = [rng.choice([2.0, 1.0, 4.0, 3.0, 0.0, 1.0]) for _ in range(nbins)]
+        elif rng.random() < 0.2:
+            o["s"] = [rng.choice([2, 1, 4, 3, 0, 1]) for _ in range(nbins)]      # a list of Python ints
         return o
     return {"op": "scale", "s": rng.choice([-1.0, -0.5, [1.0] * (nbins + 1), [2.0] * max(0, nbins - 1), [-1.0] * nbins, "nan"])}
 
